@@ -2346,3 +2346,126 @@ func (c *hmapClassifier) localDef(id *ast.Ident) ast.Expr {
 	}
 	return nil
 }
+
+var keyLookupName = regexp.MustCompile(`^(Contains|ContainsKey|Has|HasKey|Get|get|Remove|remove|contains)$`)
+
+// checkKeyDomain (siblings cross-check): the operations of one collection must agree on which keys
+// exist at all. A lookup or removal that rejects a key value up front (`if key == "" { return ... }`)
+// while the insertion path stores that value makes the element unreachable: Put("") then
+// Contains("") is false, Size() counts it, enumeration yields it. One obligation per type that has a
+// key guard anywhere.
+func (h *hmapType) checkKeyDomain() {
+	type guard struct {
+		val string
+		pos string
+	}
+	insertNames := map[string]bool{"put": true, "add": true, "_add": true, "unipoint": true, "Put": true, "Add": true, "Unipoint": true}
+	lookups := map[string][]guard{}
+	inserts := map[string][]guard{}
+	hasInsert := map[string]bool{}
+	for _, fi := range h.p.MethodsOf(h.t) {
+		if fi.Decl.Body == nil || fi.Decl.Type.Params == nil || len(fi.Decl.Type.Params.List) == 0 || len(fi.Decl.Type.Params.List[0].Names) == 0 {
+			continue
+		}
+		info := fi.Pkg.TypesInfo
+		kobj := info.Defs[fi.Decl.Type.Params.List[0].Names[0]]
+		name := fi.Obj.Name()
+		// only the implementation level: an exported wrapper delegates to put/remove
+		var gs []guard
+		for _, st := range fi.Decl.Body.List {
+			ifs, ok := st.(*ast.IfStmt)
+			if !ok {
+				// lock/defer/assignments before the guard are fine; stop at the first loop or call that works on the table
+				if _, isFor := st.(*ast.ForStmt); isFor {
+					break
+				}
+				continue
+			}
+			be, ok := ast.Unparen(ifs.Cond).(*ast.BinaryExpr)
+			if !ok || be.Op != token.EQL {
+				continue
+			}
+			id, ok := ast.Unparen(be.X).(*ast.Ident)
+			if !ok || info.ObjectOf(id) != kobj {
+				continue
+			}
+			endsInReturn := len(ifs.Body.List) > 0
+			if endsInReturn {
+				_, endsInReturn = ifs.Body.List[len(ifs.Body.List)-1].(*ast.ReturnStmt)
+			}
+			if !endsInReturn {
+				continue
+			}
+			v := ""
+			if tv, ok := info.Types[be.Y]; ok && tv.Value != nil {
+				v = tv.Value.ExactString()
+			} else if nid, ok := ast.Unparen(be.Y).(*ast.Ident); ok && nid.Name == "nil" {
+				v = "nil"
+			}
+			if v != "" {
+				gs = append(gs, guard{v, h.p.Pos(ifs.Pos())})
+			}
+		}
+		if insertNames[name] {
+			// the innermost insertion helper decides; exported wrappers that only delegate are skipped
+			delegates := false
+			ast.Inspect(fi.Decl.Body, func(n ast.Node) bool {
+				if call, ok := n.(*ast.CallExpr); ok {
+					if sel, ok := call.Fun.(*ast.SelectorExpr); ok && insertNames[sel.Sel.Name] && sel.Sel.Name != name {
+						if id, ok := ast.Unparen(sel.X).(*ast.Ident); ok && id.Name == recvName(fi) {
+							delegates = true
+						}
+					}
+				}
+				return true
+			})
+			if !delegates || len(gs) > 0 {
+				hasInsert[name] = true
+				inserts[name] = gs
+			}
+		} else if len(gs) > 0 && keyLookupName.MatchString(name) {
+			lookups[name] = gs
+		}
+	}
+	if len(lookups) == 0 && len(inserts) == 0 {
+		return
+	}
+	anyGuard := false
+	for _, gs := range inserts {
+		if len(gs) > 0 {
+			anyGuard = true
+		}
+	}
+	if len(lookups) == 0 && !anyGuard {
+		return
+	}
+	var probs []string
+	var lnames []string
+	for n := range lookups {
+		lnames = append(lnames, n)
+	}
+	sort.Strings(lnames)
+	for _, ln := range lnames {
+		for _, g := range lookups[ln] {
+			for in := range hasInsert {
+				rejects := false
+				for _, ig := range inserts[in] {
+					if ig.val == g.val {
+						rejects = true
+					}
+				}
+				if !rejects {
+					probs = append(probs, fmt.Sprintf("%s() rejects the key %s at %s but %s() stores it: the stored element can never be found or removed", ln, g.val, g.pos, in))
+				}
+			}
+		}
+	}
+	sort.Strings(probs)
+	c := h.name + " key domain"
+	pos := h.p.Pos(h.t.Obj().Pos())
+	if len(probs) > 0 {
+		h.r.Viol(h.pre+".key-domain", c, pos, strings.Join(uniq(probs), "; "))
+	} else {
+		h.r.OK(h.pre+".key-domain", c, pos, "lookups reject only keys the insertion path rejects too")
+	}
+}
